@@ -13,9 +13,14 @@ class C17:
         ops = {"add", "readd", "pull", "kill", "eof", "finish", "wait", "tick"}
         falsy = narrow_cfg(tier, ops, bound=8 if tier == "quick" else 10, idnames=("", "j2"))
         zero = narrow_cfg(tier, ops, bound=8 if tier == "quick" else 10, idnames=(0, 7))
+        # client-chosen ids that are exactly the next numbers the server would hand out (3 and 4 after two adds): the
+        # server-numbered job added then has to skip both, and must still be served in the order it came
+        collide = narrow_cfg(tier, {"add", "addanon", "pull", "finish"}, workers=("w1",), maxjobs=4, bound=11 if tier == "quick" else 13,
+                             idnames=(3, 4, "x", "y"))
         return X.search_phases(self.id, [("wide", cfg, cap), ("narrow-deep", narrow, 60 if tier == "quick" else 1500),
                                          ("empty-string-id", falsy, 30 if tier == "quick" else 600),
-                                         ("integer-zero-id", zero, 30 if tier == "quick" else 600)], tier, seed, self.families,
+                                         ("integer-zero-id", zero, 30 if tier == "quick" else 600),
+                                         ("server-numbers-taken", collide, 60 if tier == "quick" else 900)], tier, seed, self.families,
                                rule=RULE + "; every RPC return value and every quiescent state is compared with a sequential reference model (mc/ref/queue_ref.py); getstats/qinfo observed in every state; second phase: narrow configuration (1 channel, 2 workers, 2 jobs, two-id waits) to a deeper bound; third/fourth phase: the narrow configuration with client-chosen ids that are falsy in Python ('' and 0)",
                                assumptions=ASSUME, gate=gate)
 
